@@ -93,6 +93,8 @@ PROPS = {
         modules=PM_MODULES + ["pm_actor"],
         contracts=[
             f"{MAT}.calculate_target_power#c11",
+            # the sweep whose result is stored and sent (C04's recurrence contract: also decides degenerate bounds lower == upper)
+            f"{MAT}._calc_target_power#c04",
             f"{MAT}.get_target_power",
             # the expiry event: the class invariant 'a stored target has a bucket' must survive drop_old_proposals
             f"{MAT}.drop_old_proposals",
@@ -177,7 +179,10 @@ PROPS = {
                       target=f"{RS}:Resampler.resample", contract_module="contracts.ts_resampler", budget_s=6,
                       thorough_budget_s=40),
                  dict(kind="native_script", name="MovingWindow hands its ResamplerConfig to its resampler unchanged",
-                      module="native.explore_mw_config")],
+                      module="native.explore_mw_config"),
+                 dict(kind="native_script", name="error and housekeeping paths on the real Resampler (simulated clock): a closing source "
+                                                 "removed by the caller, samples without a value, duplicate registration",
+                      module="native.explore_resampler")],
         level="proof",
         explanation="_calculate_window_end: integer (microsecond) arithmetic proof that the first window end is after now, at "
                     "most two periods away, on the align_to grid, and that the timer delay is the gap to the grid. "
